@@ -692,6 +692,21 @@ def simplify_mono(f, b, ctx):
                 b.discard(tgt[0])
                 changed = True
                 break
+            # both sides free: keep the delta, but identify the two indices in the other factors
+            rep = None
+            if isinstance(i, IV) and isinstance(j, IV):
+                rep = (j, i) if i.id < j.id else (i, j)
+            elif isinstance(i, IV) and not any(w is i for w in ivs_in(j)):
+                rep = (i, j)
+            elif isinstance(j, IV) and not any(w is j for w in ivs_in(i)):
+                rep = (j, i)
+            if rep is not None:
+                others = [y for k2, y in enumerate(f) if k2 != n]
+                if any(w is rep[0] for y in others for t in _fidx(y) for w in ivs_in(t)):
+                    m = {rep[0]: rep[1]}
+                    f[:] = [(_fsubst(y, m) if k2 != n else y) for k2, y in enumerate(f)]
+                    changed = True
+                    break
         if changed:
             continue
         # bound var with no occurrence -> dimension factor
